@@ -470,8 +470,7 @@ def structure_report_is_complete_and_selects_by_export(ctx):
     ctx.check(bool(upd), f'{gd.qualname}:module entry carries the exported module properties', loop, 'mod_desc.update(module.exportProperties())',
               'the exported module properties (description, interface_classes, features, implementation ...) are not merged into the module entry', gd)
     # all normal exits return the report
-    badret = [cfg.nodes[a].ast for a, lab in cfg.pred.get(cfg.exit, []) if lab != 'exc' and not (
-        isinstance(cfg.nodes[a].ast, ast.Return) and cfg.nodes[a].ast.value is not None and not isinstance(cfg.nodes[a].ast.value, ast.Constant))]
+    badret = can_end_without_value(cfg, gd.node)
     ctx.check(not badret, f'{gd.qualname}:returns the report', gd.node, 'every normal exit returns the report', 'a normal exit returns nothing', gd)
     # node level entries
     keys = {src(t.slice) for n in body_walk(gd.node) if isinstance(n, ast.Assign) for t in n.targets if isinstance(t, ast.Subscript) and src(t.value) == 'result'}
@@ -504,8 +503,7 @@ def structure_report_is_complete_and_selects_by_export(ctx):
         off = cfge.reach([t.id], labels={'F' if side == 'T' else 'T'}, avoid=[t.id])
         ctx.check(bool(sids) and sids <= on and not (sids & off - on), f'{ea.qualname}:`{src(t.ast)}` selects the exported side', t.ast, 'entries are stored on the exported side',
                   f'`{src(t.ast)}`: the accessibles listed are the ones that are NOT exported', ea)
-    badret = [cfge.nodes[a].ast for a, lab in cfge.pred.get(cfge.exit, []) if lab != 'exc' and not (
-        isinstance(cfge.nodes[a].ast, ast.Return) and cfge.nodes[a].ast.value is not None and not isinstance(cfge.nodes[a].ast.value, ast.Constant))]
+    badret = can_end_without_value(cfge, ea.node)
     ctx.check(not badret, f'{ea.qualname}:returns a mapping', ea.node, 'every normal exit returns a mapping', 'a normal exit returns nothing', ea)
     # add_module
     am = m.method(SN, 'add_module', inherited=False)
